@@ -205,3 +205,112 @@ Proof.
        | cbn; split; [reflexivity|split; [reflexivity|split;
            [intro E; rewrite E; reflexivity|intro E; destruct (0 <? lf) eqn:E0; [rewrite <- B; eauto|lia]]]]].
 Qed.
+
+(* ------------------------------------------------------------------ the active-subscriptions list *)
+Lemma akey_mk_act : forall nw os x, akey (mk_act nw os x) = key x /\ a_conf (mk_act nw os x) = s_conf x
+  /\ a_trem (mk_act nw os x) = trem nw x.
+Proof.
+  intros. unfold mk_act. destruct (find_obj (s_oid x) os) as [o|]; [destruct (okind o)|]; cbn; auto.
+Qed.
+
+Theorem active_list_exact : forall s c s' out, inv s -> step s (ReadActive c) = (s', out) ->
+  exists l, o_act out = Some l /\ map akey l = keys (subs s) /\ NoDup (map akey l) /\
+    forall a, In a l -> exists x, In x (subs s) /\ akey a = key x /\ a_conf a = s_conf x /\
+      match s_task x with
+      | Some (t, _) => now s < t /\ a_trem a = remaining (s_life x) t (now s)
+      | None => a_trem a = 0 /\ s_life x = 0
+      end.
+Proof.
+  intros s c s' out Hi S. cbn [step] in S. destruct (drain s) as [s1 ns] eqn:D.
+  pose proof (drain_facts _ _ _ Hi D) as [A [B [C _]]]. inversion S; subst s' out; clear S. cbn [o_act].
+  exists (read_active s1). split; [reflexivity|]. unfold read_active. rewrite C, B.
+  assert (E : map akey (map (mk_act (now s) (objs s1)) (subs s)) = keys (subs s)).
+  { rewrite map_map. apply map_ext. intro x. apply akey_mk_act. }
+  split; [exact E|]. split; [rewrite E; apply Hi|].
+  intros a Ha. apply in_map_iff in Ha as [x [<- Hx]]. exists x. split; [exact Hx|].
+  destruct (akey_mk_act (now s) (objs s1) x) as [K1 [K2 K3]]. split; [exact K1|]. split; [exact K2|].
+  destruct Hi as [_ [_ Hlive]]. rewrite Forall_forall in Hlive. specialize (Hlive x Hx).
+  rewrite K3, (trem_remaining _ _ (live_le _ _ Hlive)). unfold sub_live in Hlive.
+  destruct (s_task x) as [[t k]|]; [split; [tauto|reflexivity]|auto].
+Qed.
+
+(* ------------------------------------------------------------------ a subscription stays until cancelled or expired *)
+Lemma fire_item_nodup : forall s it, NoDup (keys (subs s)) -> NoDup (keys (subs (fst (fire_item s it)))).
+Proof.
+  intros s it H. destruct (fire_item_subs s it) as [E|[c [p [o [y [_ [_ [_ E]]]]]]]]; rewrite E; [exact H|].
+  apply NoDup_map_filter. exact H.
+Qed.
+
+Lemma fire_item_keeps : forall s it x, NoDup (keys (subs s)) -> In x (subs s) ->
+  (forall k, s_task x <> Some (now s, k)) -> In x (subs (fst (fire_item s it))).
+Proof.
+  intros s it x Hnd Hx Hnot. destruct (fire_item_subs s it) as [E|[c [p [o [y [_ [F [[k Hy] E]]]]]]]]; rewrite E; [exact Hx|].
+  apply remove_sub_in. split; [exact Hx|]. intro Hk. apply find_sub_some in F as [Hiny Hky].
+  assert (y = x) by (apply (NoDup_key_eq (subs s)); auto; congruence). subst y. apply (Hnot k). exact Hy.
+Qed.
+
+Lemma fire_items_keeps : forall its s x, NoDup (keys (subs s)) -> In x (subs s) ->
+  (forall k, s_task x <> Some (now s, k)) -> In x (subs (fst (fire_items its s))).
+Proof.
+  induction its as [|it r IH]; intros s x Hnd Hx Hnot; [exact Hx|]. cbn.
+  pose proof (fire_item_nodup s it Hnd) as N1. pose proof (fire_item_keeps s it x Hnd Hx Hnot) as K1.
+  pose proof (fire_item_now s it) as T1. destruct (fire_item s it) as [s1 n1]. cbn in *.
+  specialize (IH s1 x N1 K1). destruct (fire_items r s1) as [s2 n2]. cbn in *. apply IH. rewrite T1. exact Hnot.
+Qed.
+
+Definition not_due_before (x : sub) (tm : Z) : Prop :=
+  match s_task x with Some (t, _) => tm < t | None => True end.
+
+Lemma ticks_keeps : forall n s x, NoDup (keys (subs s)) -> Forall (sub_live (now s)) (subs s) -> In x (subs s) ->
+  not_due_before x (now s + Z.of_nat n) -> In x (subs (fst (ticks n s))).
+Proof.
+  induction n as [|n IH]; intros s x Hnd Hlive Hx Hdue; [exact Hx|]. cbn [ticks].
+  pose proof (tick_inv s Hnd Hlive) as [A [B [C _]]].
+  assert (K : In x (subs (fst (tick s)))).
+  { unfold tick. apply fire_items_keeps; cbn; auto. intros k E. unfold not_due_before in Hdue. rewrite E in Hdue. lia. }
+  destruct (tick s) as [s1 n1]. cbn in *. specialize (IH s1 x A B K).
+  destruct (ticks n s1) as [s2 n2]. cbn in *. apply IH. unfold not_due_before in *. destruct (s_task x) as [[t k]|]; [lia|auto].
+Qed.
+
+Theorem subscription_persists : forall s e s' out x, inv s -> wf_ev e -> step s e = (s', out) ->
+  In x (subs s) -> ~ is_subscribe_of (key x) e ->
+  (forall c p o, e = Cancel c p o -> key x <> (c, p, o)) ->
+  (forall t, e = Advance t -> not_due_before x (now s + t)) ->
+  In x (subs s').
+Proof.
+  intros s e s' out x Hi Hwf S Hx Hns Hnc Hadv.
+  destruct e as [i p v| |c p o cf life|c p o|t|c]; cbn [step] in S.
+  - destruct (nth_error (objs s) i) as [ob|]; [destruct (has_prop (okind ob) p)|]; inversion S; subst; auto.
+  - destruct (drain s) as [s1 ns] eqn:D. pose proof (drain_facts _ _ _ Hi D) as [_ [_ [C _]]].
+    inversion S; subst. rewrite C. exact Hx.
+  - destruct (drain s) as [s1 ns] eqn:D. pose proof (drain_facts _ _ _ Hi D) as [_ [_ [C _]]].
+    cbn in Hns. unfold do_subscribe in S. destruct (find_obj o (objs s1)) as [ob|]; [|inversion S; subst; rewrite C; exact Hx].
+    destruct (okind ob); try (inversion S; subst; rewrite C; exact Hx).
+    all: destruct (find_sub c p o (subs s1)); inversion S; subst s' out; cbn [subs]; rewrite C.
+    1,3,5: apply in_map_iff; exists x; split; [|exact Hx];
+           destruct (key_eqb c p o x) eqn:E; [apply key_eqb_iff in E; contradiction|reflexivity].
+    all: apply in_or_app; left; exact Hx.
+  - destruct (drain s) as [s1 ns] eqn:D. pose proof (drain_facts _ _ _ Hi D) as [A [_ [C _]]].
+    destruct (do_cancel_facts _ _ _ _ _ _ _ A S) as [_ [_ [_ [_ [_ K]]]]]. apply K; [rewrite C; exact Hx|].
+    apply (Hnc c p o eq_refl).
+  - destruct (drain s) as [s1 n1] eqn:D. pose proof (drain_facts _ _ _ Hi D) as [[A1 [A2 A3]] [B [C _]]].
+    pose proof (ticks_keeps (Z.to_nat t) s1 x A1 A3) as K. destruct (ticks (Z.to_nat t) s1) as [s2 n2].
+    inversion S; subst s' out. cbn in *. apply K; [rewrite C; exact Hx|]. rewrite B.
+    rewrite Z2Nat.id by exact Hwf. apply Hadv. reflexivity.
+  - destruct (drain s) as [s1 ns] eqn:D. pose proof (drain_facts _ _ _ Hi D) as [_ [_ [C _]]].
+    inversion S; subst. cbn. rewrite C. exact Hx.
+Qed.
+
+(* the table never holds an elapsed subscription *)
+Theorem table_unexpired : forall os es, NoDup (oids os) -> Forall wf_ev es ->
+  let s := fst (run (init os) es) in
+  forall x, In x (subs s) ->
+    match s_task x with Some (t, _) => now s < t /\ 0 < s_life x | None => s_life x = 0 end.
+Proof.
+  intros os es Ho Hw s x Hx. pose proof (run_inv es (init os) (init_inv os Ho) Hw) as [_ [_ Hl]].
+  rewrite Forall_forall in Hl. specialize (Hl x Hx). unfold sub_live in Hl.
+  destruct (s_task x) as [[t k]|]; [tauto|exact Hl].
+Qed.
+
+Theorem increment_criterion : forall pr v i, inc_filter pr v i = true <-> i <= Z.abs (v - pr).
+Proof. intros. rewrite inc_filter_abs. lia. Qed.
